@@ -240,7 +240,9 @@ def corr_identity(ctx: Ctx, drv: LeanDriver) -> None:
 
 def mk_func(names: list[str], defaults: list[str | None]):
     src = "def f(" + ", ".join(n if d is None else f"{n}={d!r}" for n, d in zip(names, defaults)) + "):\n    pass\n"
-    ns: dict = {}
+    # every generated function is `f` of the SAME module (what a reloaded task module or a factory of task bodies produces): binding
+    # goes by the function that is called, not by its qualified name
+    ns: dict = {"__name__": "harness.generated_signatures"}
     exec(src, ns)  # noqa: S102 - generated signature, no user input
     return ns["f"]
 
